@@ -78,6 +78,7 @@ PLANS = {
         "budget_s": {"quick": 55, "thorough": 900},
         "scenarios": [
             S("c10_close", 2200, 70000),
+            S("c10_epchurn", 1500, 40000),   # endpoints created/closed by other threads while the socket closes (scenarios/c10b_epchurn.cc)
             S("c10_device", 500, 15000),
         ],
         "assumptions": ["deadlock = no thread can run and no timer is pending (exact in the simulator); the 30 s bounds are virtual time with injected stalls subtracted",
@@ -372,6 +373,7 @@ PLANS = {
                           "rule on failed sends",
         "budget_s": {"quick": 50, "thorough": 900},
         "scenarios": [
+            S("c10_epchurn", 400, 12000, label="epchurn"),
             # avoid / savoid are bit masks that steer the WORKLOAD around behaviours listed in known_findings.json
             # (oracles unchanged; AV_* / SA_* in scenarios/c03_api.cc): clear a bit when the library has been repaired.
             # avoid 64 = one device at a time, 128 = one reply at a time per context of a cooked REP/RESPONDENT
